@@ -133,8 +133,15 @@ pub fn eval(p: &Prog) -> (String, Option<String>, bool, u64) {
                     ));
                 }
             } else {
-                // partial knowledge: every delivered answer must be an expected one when the expectation is exact
-                if exact {
+                // partial knowledge: every delivered answer must be an expected one when the expectation is exact,
+                // and there cannot be MORE of them than the committed clause has (a run cut short by the step budget
+                // or by take(n) still shows a duplicated or uncommitted answer — seeded change C08-f)
+                if exact && got.len() > want.len() {
+                    fail = Some(format!(
+                        "the operator delivered {} answers, the committed clause has only {} [{}]",
+                        got.len(), want.len(), want.join(" | ")
+                    ));
+                } else if exact {
                     for g in &got {
                         if !want.contains(g) {
                             fail = Some(format!("delivered answer `{}` is not an answer of the committed clause", g));
